@@ -797,13 +797,14 @@ func c09GenCase(r *vlib.Rand, mode string, n int, own bool) *c09Case {
 		return c
 	}
 	c.MidBudget = r.Intn(3)
+	c.FlipSync = r.Chance(1, 2)
 	extKinds := []string{"set", "set", "setraw", "update", "del"}
 	c.Actors = append(c.Actors, c09Actor{Name: "X1", Role: "ext", Ops: gen(extKinds, 2, 4)})
 	if r.Chance(1, 3) {
 		c.Actors = append(c.Actors, c09Actor{Name: "X2", Role: "ext", Ops: gen(extKinds, 1, 2)})
 	}
 	if r.Chance(3, 4) {
-		c.Actors = append(c.Actors, c09Actor{Name: "G1", Role: "gw", Ops: gen([]string{"put", "put", "gdel", "putblind"}, 1, 3)})
+		c.Actors = append(c.Actors, c09Actor{Name: "G1", Role: "gw", Ops: gen([]string{"put", "put", "gdel", "putblind", "resync", "resync"}, 1, 3)})
 	}
 	if mode == c09OnDemand || r.Chance(1, 2) {
 		c.Actors = append(c.Actors, c09Actor{Name: "R1", Role: "rd", Ops: gen([]string{"get", "get", "get1x", "getsync"}, 1, 3)})
@@ -872,6 +873,18 @@ func c09RunCase(e *c09Env, c *c09Case, chooser vlib.Chooser, r *vlib.Rand) {
 			}
 		}
 	}
+	if !s.quiesce() {
+		run.Inconclusive("quiescence watchdog expired after seeding")
+		e.dirty = true
+		return
+	}
+	// the sync function changes (if it does) between the seeds and the run: every version up to here was written
+	// under the old function, every later one under the new function; a resync in the run then really rewrites
+	syncBSeeds := e.syncB
+	flipAt := map[string]int{}
+	for _, k := range c.Keys {
+		flipAt[k] = e.rec.count(k)
+	}
 	if c.FlipSync {
 		e.syncB = !e.syncB
 		fn := c09SyncFnA
@@ -881,11 +894,6 @@ func c09RunCase(e *c09Env, c *c09Case, chooser vlib.Chooser, r *vlib.Rand) {
 		if _, err := e.coll.UpdateSyncFun(e.ctx, fn); err != nil {
 			e.t.Fatalf("C09 sync fn: %v", err)
 		}
-	}
-	if !s.quiesce() {
-		run.Inconclusive("quiescence watchdog expired after seeding")
-		e.dirty = true
-		return
 	}
 
 	// ---- compute->CAS window: an external write lands while a gateway write / an import is in flight
@@ -1113,6 +1121,7 @@ func c09RunCase(e *c09Env, c *c09Case, chooser vlib.Chooser, r *vlib.Rand) {
 		}
 		lastBodyChange := -1
 		storeArtifact := false
+		var pending *c09Ver // the external write that is waiting to be imported
 		for i, v := range vers {
 			var pv *c09Ver
 			if i > 0 {
@@ -1133,10 +1142,11 @@ func c09RunCase(e *c09Env, c *c09Case, chooser vlib.Chooser, r *vlib.Rand) {
 					v.Class = fmt.Sprintf("STORE ACCEPTED an update computed against cas %x over cas %x", ag, pcas)
 					storeArtifact = true
 					caseArtifact = true
-					continue
+					break // what follows in this document's log is not decidable
 				}
 			}
 			if !v.Gateway {
+				pending = v
 				v.Class = "external write"
 				if pv != nil && pv.HasSync && !v.HasSync {
 					v.Class = "external write (store dropped the metadata of the tombstone)"
@@ -1150,17 +1160,36 @@ func c09RunCase(e *c09Env, c *c09Case, chooser vlib.Chooser, r *vlib.Rand) {
 			}
 			P := pv.rev()
 			R := v.rev()
-			predExternal := pv != nil && !pv.Gateway
+			predExternal := pending != nil
+			ext := pending                                  // the external write this commit sits on (pv itself, or pv is a rewrite that left it pending)
 			gw := strings.HasPrefix(v.Marker, "g") || v.Del // a body the gateway itself issued (or a gateway delete)
+			wantCrc := base.Crc32cHashString(v.Body)
+			if v.Del {
+				wantCrc = base.DeleteCrc32c
+			}
+			// does this version carry the fingerprints by which the gateway recognises a version as its own?
+			claims := v.Sync.GetSyncCas() == v.Cas || v.Sync.Crc32c == wantCrc
+			if !bodyChanged && predExternal && R == P {
+				s.cnt("same_revision_rewrites_over_pending_external_write", 1)
+			}
 			switch {
+			case !bodyChanged && predExternal && R == P && !claims:
+				// a metadata-only rewrite (resync) that lands on a not yet imported external write and leaves it
+				// recognisable as external: the external write is still waiting for its import
+				v.Class = "metadata-only rewrite by the gateway under a pending external write (still recognisable as external)"
+				s.cnt("gateway_metadata_only_rewrites", 1)
 			case !bodyChanged && predExternal:
-				// the import of the external write pv
+				// the import of the external write ext (or a commit that marks ext as the gateway's own)
+				pending = nil
 				v.Class = "import of the external write before it"
 				importCommits++
 				importsBy[roleOf(v.Actor)]++
 				if R == P {
+					importCommits--
+					importsBy[roleOf(v.Actor)]--
+					v.Class = "gateway commit that MARKED the external write as its own without a new revision"
 					run.Violation("new-revision", sig("import-created-no-new-revision"),
-						fmt.Sprintf("%s: the gateway rewrote the metadata of an external write (cas %x) but kept revision %q: the external body is not a new revision", k, pv.Cas, P), witness(nil))
+						fmt.Sprintf("%s: the gateway (%s by %s) rewrote the metadata on top of the external write with cas %x (body %q) so that it passes as the gateway's own version (_sync.cas=%s, version cas %x, crc32c=%s) but kept revision %q: the external write is never imported and its body is served under the old revision", k, v.OpKind, roleOf(v.Actor), ext.Cas, ext.Marker, v.Sync.Cas, v.Cas, v.Sync.Crc32c, P), witness(nil))
 					break
 				}
 				ri := v.Sync.History[R]
@@ -1194,8 +1223,12 @@ func c09RunCase(e *c09Env, c *c09Case, chooser vlib.Chooser, r *vlib.Rand) {
 					var b struct {
 						Ch string `json:"ch"`
 					}
-					if json.Unmarshal(v.Body, &b) == nil && b.Ch != "" && !e.syncB {
-						if rem, ok := v.Sync.Channels[b.Ch]; !ok || rem != nil {
+					if json.Unmarshal(v.Body, &b) == nil && b.Ch != "" {
+						wantCh := b.Ch
+						if (i < flipAt[k] && syncBSeeds) || (i >= flipAt[k] && e.syncB) {
+							wantCh = "r-" + b.Ch
+						}
+						if rem, ok := v.Sync.Channels[wantCh]; !ok || rem != nil {
 							chs := []string{}
 							for name, r := range v.Sync.Channels {
 								if r == nil {
@@ -1204,7 +1237,7 @@ func c09RunCase(e *c09Env, c *c09Case, chooser vlib.Chooser, r *vlib.Rand) {
 							}
 							sort.Strings(chs)
 							run.Violation("new-revision", sig("import-channels-not-derived-from-the-imported-body"),
-								fmt.Sprintf("%s: import revision %s of body %q (channel %q) is in channels %v", k, R, v.Marker, b.Ch, chs), witness(nil))
+								fmt.Sprintf("%s: import revision %s of body %q (the sync function puts it in channel %q) is in channels %v", k, R, v.Marker, wantCh, chs), witness(nil))
 						}
 					}
 				}
@@ -1212,23 +1245,21 @@ func c09RunCase(e *c09Env, c *c09Case, chooser vlib.Chooser, r *vlib.Rand) {
 				if v.Sync.GetSyncCas() != v.Cas {
 					run.Violation("fingerprint", sig("import-stored-cas-differs-from-version-cas"), fmt.Sprintf("%s: import %s stored _sync.cas=%s, version cas %x", k, R, v.Sync.Cas, v.Cas), witness(nil))
 				}
-				wantCrc := base.Crc32cHashString(v.Body)
-				if v.Del {
-					wantCrc = base.DeleteCrc32c
-				}
 				if v.Sync.Crc32c != wantCrc {
 					run.Violation("fingerprint", sig("import-stored-checksum-differs-from-body"), fmt.Sprintf("%s: import %s stored crc32c=%s, body has %s", k, R, v.Sync.Crc32c, wantCrc), witness(nil))
 				}
-				if v.Mou == nil || v.Mou.CAS() != v.Cas || v.Mou.PreviousCAS() != pv.Cas {
+				if v.Mou == nil || v.Mou.CAS() != v.Cas || v.Mou.PreviousCAS() != ext.Cas {
 					run.Violation("mou", sig("import-mou-does-not-name-the-imported-write"),
-						fmt.Sprintf("%s: import %s (cas %x) of the external write with cas %x stored _mou=%v; expected cas=this version, pCas=the external write", k, R, v.Cas, pv.Cas, v.Mou), witness(nil))
+						fmt.Sprintf("%s: import %s (cas %x) of the external write with cas %x stored _mou=%v; expected cas=this version, pCas=the external write", k, R, v.Cas, ext.Cas, v.Mou), witness(nil))
 				}
 			case bodyChanged && predExternal && acked[k+"/"+R]:
+				pending = nil
 				v.Class = "acknowledged gateway write directly over an external write that was never imported"
 				s.cnt("gateway_write_over_unimported_external_write", 1)
 				run.Note("case %d %s: acknowledged gateway write %q committed directly over the unimported external write %q", c.N, k, v.Marker, pv.Marker)
 			case bodyChanged && predExternal:
 				// not an acknowledged gateway write: this commit is the import of pv, and it altered what pv wrote
+				pending = nil
 				importCommits++
 				importsBy[roleOf(v.Actor)]++
 				shape := "another-body-stored"
@@ -1298,9 +1329,9 @@ func c09RunCase(e *c09Env, c *c09Case, chooser vlib.Chooser, r *vlib.Rand) {
 		nothingToImport := !L.Gateway && L.Del && !L.HasSync // delete of a document the gateway never knew
 		if !L.Gateway && !nothingToImport {
 			// the storage-order-last write is external: it must have been imported and be the current revision
-			if !F.Gateway {
+			if pending != nil {
 				run.Violation("imported", sig("latest-external-write-not-imported"),
-					fmt.Sprintf("%s: at quiescence the last stored version (cas %x, body %q, delete=%v) is an external write that the gateway did not import (gateway read: %+v)", k, F.Cas, F.Marker, F.Del, view), witness(nil))
+					fmt.Sprintf("%s: at quiescence the external write with cas %x (body %q, delete=%v) is the storage-order-last write and the gateway has not imported it (last stored version cas %x; gateway read: %+v)", k, pending.Cas, pending.Marker, pending.Del, F.Cas, view), witness(nil))
 			} else {
 				e.count("latest_external_write_checked_imported", 1)
 				if e.mode != c09OnDemand && len(vers) > preRead[k] {
